@@ -136,6 +136,8 @@ func TestVerifPex(t *testing.T) {
 			t.Fatal(err)
 		}
 		ageN := 0
+		// a burst of failed connection attempts to one peer (more than the retry limit), preferably a trusted one, then a clean-up
+		burstLeft, burstAddr, burst := 0, "", s%3 == 0
 		for step := 0; step < 30; step++ {
 			r := vxRec{Seq: s, Step: step, Max: cfg.Max, AllowLocal: cfg.AllowLocalhost, Expiration: int64(cfg.Expiration / time.Second), Args: []vxArg{}, Pre: vxProj(px)}
 			known := func() string {
@@ -144,7 +146,21 @@ func TestVerifPex(t *testing.T) {
 				}
 				return r.Pre[rng.Intn(len(r.Pre))].Addr
 			}
-			switch k := rng.Intn(20); {
+			k := rng.Intn(20)
+			if burst && step == 12 && len(r.Pre) > 0 {
+				burstLeft, burstAddr = 12, r.Pre[rng.Intn(len(r.Pre))].Addr
+				for _, p := range r.Pre {
+					if p.Trusted {
+						burstAddr = p.Addr
+					}
+				}
+			}
+			if burstLeft > 0 {
+				k = 14
+			} else if burst && step == 24 {
+				k = 18 // clear old
+			}
+			switch {
 			case k < 7:
 				r.Op = "add"
 				a := vxMkArg(rng)
@@ -191,6 +207,10 @@ func TestVerifPex(t *testing.T) {
 			case k < 15:
 				r.Op = "retry"
 				a := known()
+				if burstLeft > 0 {
+					a = burstAddr
+					burstLeft--
+				}
 				r.Args = []vxArg{{Raw: a, Clean: a}}
 				px.IncreaseRetryTimes(a)
 				r.Res = "ok"
